@@ -57,6 +57,8 @@ Definition show_op (i : x_op) : string :=
   | ODeclare _ _ x s m => "DeclareVar { name: " ++ x ++ ", init: " ++ rn s ++ ", mutable: " ++ (if m then "true" else "false") ++ " }"
   | OPushScope _ _ => "PushScope"
   | OPopScope _ _ => "PopScope"
+  | OBreak _ _ t k => "Break { target: " ++ rn t ++ ", try_depth: 0, scopes: " ++ rn k ++ " }"
+  | OContinue _ _ t k => "Continue { target: " ++ rn t ++ ", try_depth: 0, scopes: " ++ rn k ++ " }"
   | OJump _ _ t => "Jump { target: " ++ rn t ++ " }"
   | OJumpIfTrue _ _ c t => "JumpIfTrue { cond: " ++ rn c ++ ", target: " ++ rn t ++ " }"
   | OJumpIfFalse _ _ c t => "JumpIfFalse { cond: " ++ rn c ++ ", target: " ++ rn t ++ " }"
